@@ -318,7 +318,8 @@ func (r *runner) execState(s *sim.Env, root int, cells []Cell) {
 		post, vpost := e.Digest(), f.HookViewOf(e, app)
 		args := map[string]interface{}{"m": c.M, "hook": c.Hook, "app": c.App, "breaker": c.Breaker, "esm": c.Esm, "off": c.Off, "pm": c.Pm, "ref": ref[c.Hook]}
 		id := r.lg.Add(root, r.run, "Hook", args, rj(res), map[string]interface{}{"pre": pre, "post": post,
-			"seizedPre": vpre.Seized, "seizedPost": vpost.Seized, "aucPre": vpre.Auctions, "aucPost": vpost.Auctions})
+			"seizedPre": vpre.Seized, "seizedPost": vpost.Seized, "aucPre": vpre.Auctions, "aucPost": vpost.Auctions,
+			"seizedNew": NewIn(vpre.SeizedID, vpost.SeizedID), "aucNew": NewIn(vpre.AucID, vpost.AucID)})
 		if !c.Breaker && c.Esm == "off" && len(c.Off) == 0 {
 			ref[c.Hook] = id
 			args["ref"] = id
